@@ -12,7 +12,7 @@ from mc.engine import Acc
 
 LEVEL = 'exploration'
 RULE = ('full product: error = mantissa x 10^e (e=-15..15; 11 mantissas (thorough: every two-digit mantissa with its .05 rounding edges, 281 values) + the floats adjacent to each power of ten) x '
-        'value = error x ratio (13 ratios incl. 0, +-1e-3 .. +-1e6) x significance 1..6 x flag {"", "+", " "}; Obs '
+        'value = error x ratio (17 ratios incl. 0, +-1e-3 .. +-1e6, 1e10, -3.3e13, 7.7e16, -1e20) x significance 1..6 x flag {"", "+", " "}; Obs '
         '(covariance-defined and Monte-Carlo) and CObs; each string parsed back and compared in exact rational '
         'arithmetic; prior parser on every string, least_squares acceptance on the default-significance slice; scalar '
         'views on every observable.  A case is one (value,error,significance,flag) tuple; all are non-trivial except '
@@ -23,7 +23,7 @@ EXHAUSTIVE = True
 REPEAT = 2      # every case is evaluated twice in the same process: the second verdict must equal the first (call-history oracle)
 
 MANT = [1.0, 1.04, 1.05, 1.5, 2.5, 9.4, 9.49, 9.5, 9.95, 9.96, 9.9995]
-RATIOS = [0.0, 1e-3, -1e-3, 0.5, -0.5, 1.0, -1.0, 9.96, -9.96, 1e3, -1e3, 1e6, -1e6]
+RATIOS = [0.0, 1e-3, -1e-3, 0.5, -0.5, 1.0, -1.0, 9.96, -9.96, 1e3, -1e3, 1e6, -1e6, 1e10, -3.3e13, 7.7e16, -1e20]
 
 
 def build(tier, seed):
